@@ -1137,6 +1137,13 @@ fn run_input(run: &mut Run, ctx: &mut Ctx, line: &str) {
                 string_case(run, l, pad, &unhex(p[2]));
             }
         }
+    } else if let Some(rest) = line.strip_prefix("su/") {
+        let p: Vec<&str> = rest.split('/').collect();
+        if p.len() == 3 {
+            if let (Ok(l), Ok(pad)) = (p[0].parse::<usize>(), p[1].parse::<u8>()) {
+                crate::sauceuni::string_case(run, l, pad, &String::from_utf8_lossy(&unhex(p[2])));
+            }
+        }
     } else if let Some(rest) = line.strip_prefix("p/") {
         if let Some((ext, s)) = rest.split_once('/') {
             if let Ok(s) = s.parse::<u64>() {
@@ -1512,6 +1519,9 @@ pub fn run(run: &mut Run, seed: u64, thorough: bool, replay: Option<&str>, corpu
             run.oracle_fail("string-eq", &format!("s/64/0/{}", hex(&a)), "SauceString equality is not equality up to trailing blanks/NULs");
         }
     }
+
+    // 5b. SauceString on Rust strings: the CP437 <-> Unicode layer (own generator state)
+    crate::sauceuni::cases(run, &mut Rng::new(seed ^ 0x5A11), thorough);
 
     // 6. a file of 2 GiB and a bit (the length does not fit i32)
     for extra in [0usize, 100, 16325] {
